@@ -108,6 +108,12 @@ RefusedAnswer(e) ==
   \/ e.pay = "ridshort"
   \/ e.kind = "val" /\ e.pay \in {"emptyout", "badresult", "nohdr"}
   \/ e.kind # "val" /\ e.pay = "errout"
+(* A string that holds "NaN" (pay "nan"): gjson's Float() parses it to a NaN.  The   *)
+(* output is a valid response (it counts towards the threshold); Max and Min *)
+(* compare with < and >, which are false for a NaN: the answer is SKIPPED and  *)
+(* the aggregate is the one of the other answers.  (Avg would be poisoned -    *)
+(* findings R7-2; the drivers send "nan" to max / min feeds only, and only     *)
+(* once another provider has answered the batch with a number.)               *)
 AnsX(e) == IF e.pay \in ZeroPays THEN 0 ELSE IF e.pay = "true" THEN 100000000 ELSE e.x
 
 -----------------------------------------------------------------------------
@@ -168,10 +174,12 @@ OnStateChanged(s, c) ==
 (* service: Callback — the non-empty outputs of the current batch *)
 BatchVals(cx) ==
   [p \in {q \in DOMAIN cx.reqs : cx.reqs[q].kind = "val"} |-> cx.reqs[p].x]
+(* ... and the providers whose output holds no number at all (NaN) *)
+BatchNaNs(cx) == {q \in DOMAIN cx.reqs : cx.reqs[q].kind = "nan"}
 
 Callback(s, e, c) ==
   LET vals == BatchVals(s.ctx[c]) IN
-  OnResponse(s, e, c, vals, Cardinality(DOMAIN vals) < s.ctx[c].bthr)
+  OnResponse(s, e, c, vals, Cardinality(DOMAIN vals) + Cardinality(BatchNaNs(s.ctx[c])) < s.ctx[c].bthr)
 
 -----------------------------------------------------------------------------
 (* msgs.go ValidateBasic + keeper.go CreateFeed + service CreateRequestContext *)
@@ -279,7 +287,7 @@ DoRespond(s, e) ==
       ELSE
         LET fee == cx.reqs[who].fee
             tax == (fee * s.params.taxNum) \div s.params.taxDen
-            kind == IF e.kind = "val" THEN "val" ELSE "err"
+            kind == IF e.kind = "val" THEN (IF e.pay = "nan" THEN "nan" ELSE "val") ELSE "err"
             x == IF kind = "val" THEN AnsX(e) ELSE 0
             cx1 == [cx EXCEPT !.reqs[who] = [@ EXCEPT !.act = FALSE, !.kind = kind, !.x = x],
                               !.respN = @ + 1]
@@ -436,11 +444,17 @@ Completed(s, t, c) ==
 
 ValidOut(s, e, c) ==
   LET before == BatchVals(s.ctx[c]) IN
-  IF e.name = "Respond" /\ e.ok /\ e.kind = "val" /\ e.feed \in DOMAIN s.feeds /\ s.feeds[e.feed].ctx = c
+  IF e.name = "Respond" /\ e.ok /\ e.kind = "val" /\ e.pay # "nan" /\ e.feed \in DOMAIN s.feeds /\ s.feeds[e.feed].ctx = c
   THEN Put(before, e.who, AnsX(e)) ELSE before
 
+(* valid responses whose output holds no number (NaN): they count, max / min skip them *)
+NaNOut(s, e, c) ==
+  BatchNaNs(s.ctx[c]) \cup
+  (IF e.name = "Respond" /\ e.ok /\ e.kind = "val" /\ e.pay = "nan" /\ e.feed \in DOMAIN s.feeds /\ s.feeds[e.feed].ctx = c
+   THEN {e.who} ELSE {})
+
 MetThreshold(s, e, c) ==
-  LET n == Cardinality(DOMAIN ValidOut(s, e, c)) IN n > 0 /\ n >= s.ctx[c].bthr
+  LET n == Cardinality(DOMAIN ValidOut(s, e, c)) + Cardinality(NaNOut(s, e, c)) IN n > 0 /\ n >= s.ctx[c].bthr
 
 (* feeds whose batch completed with enough valid answers in this step *)
 Appending(s, e, t) ==
@@ -451,7 +465,32 @@ Apply(s, e) == Apply0(s, e)
 (* ghosts: counters that bound the model (successful edits, module-service
    calls / binds / sends) and the feeds currently paused for lack of funds
    (autop; restart = this step restarted one of them) *)
-GhostInit == [edits |-> 0, calls |-> 0, autop |-> {}, restart |-> FALSE]
+(* History ghosts (audit round): what HAPPENED to every feed created in this trace,
+   taken from the accepted events and from the service module's state — never from
+   the oracle module's own records (feed record, state index, value store):
+     creator[f]  the signer of the accepted CreateFeed
+     fctx[f]     the request context that appeared in the service module in that step
+     lh[f]       latest-history of the accepted CreateFeed / of the last accepted
+                 EditFeed that names one
+     ans[f]      the valid answers the harness submitted and the service module
+                 accepted for the batch in flight (provider -> units of 10^-8) *)
+GhostInit == [edits |-> 0, calls |-> 0, autop |-> {}, restart |-> FALSE,
+              creator |-> EmptyF, fctx |-> EmptyF, lh |-> EmptyF, ans |-> EmptyF]
+
+(* (an answer that holds no number - pay "nan" - is kept under NaNMark: it counts
+   towards the threshold, max / min skip it) *)
+NaNMark == 2000000000
+NumOnly(xs) == [p \in {q \in DOMAIN xs : xs[q] # NaNMark} |-> xs[p]]
+(* the valid answers of feed f's batch in flight once e has been processed *)
+AnsWith(g, e, f) ==
+  LET old == Get(g.ans, f, EmptyF) IN
+  IF e.name = "Respond" /\ e.ok /\ e.kind = "val" /\ e.feed = f
+  THEN Put(old, e.who, IF e.pay = "nan" THEN NaNMark ELSE AnsX(e)) ELSE old
+
+(* the batch of feed f's context (as the history knows it) completed in this step *)
+CompletedH(g, s, t, f) ==
+  f \in DOMAIN g.fctx /\ g.fctx[f] \in DOMAIN s.ctx /\ Completed(s, t, g.fctx[f])
+
 GhostStep(g, s, e, t) ==
   LET auto == IF e.name = "EndBlock"
               THEN {f \in DOMAIN s.feeds : s.ctx[s.feeds[f].ctx].state = "running"
@@ -459,10 +498,22 @@ GhostStep(g, s, e, t) ==
                                             /\ t.ctx[t.feeds[f].ctx].state = "paused"}
               ELSE {}
       started == IF e.name = "StartFeed" /\ e.ok THEN {e.feed} ELSE {}
+      created == e.name = "CreateFeed" /\ e.ok
+      newctx == DOMAIN t.ctx \ DOMAIN s.ctx
+      fctx2 == IF created
+               THEN Put(g.fctx, e.feed, IF Cardinality(newctx) = 1 THEN CHOOSE c \in newctx : TRUE ELSE "")
+               ELSE g.fctx
   IN [edits |-> g.edits + (IF e.name = "EditFeed" /\ e.ok THEN 1 ELSE 0),
       calls |-> g.calls + (IF e.name \in {"CallPrice", "BindX", "Send"} THEN 1 ELSE 0),
       autop |-> (g.autop \cup auto) \ started,
-      restart |-> started \cap g.autop # {}]
+      restart |-> started \cap g.autop # {},
+      creator |-> IF created THEN Put(g.creator, e.feed, e.who) ELSE g.creator,
+      fctx |-> fctx2,
+      lh |-> IF created \/ (e.name = "EditFeed" /\ e.ok /\ e.lh > 0 /\ e.feed \in DOMAIN g.lh)
+             THEN Put(g.lh, e.feed, e.lh) ELSE g.lh,
+      ans |-> [f \in DOMAIN fctx2 |->
+                 IF created /\ f = e.feed THEN EmptyF
+                 ELSE IF CompletedH(g, s, t, f) THEN EmptyF ELSE AnsWith(g, e, f)]]
 
 -----------------------------------------------------------------------------
 (* Property clauses *)
@@ -516,6 +567,74 @@ C17_StateMirror(t) ==
 C17_Authority(s, e) ==
   (e.name \in {"StartFeed", "PauseFeed", "EditFeed"} /\ e.ok) =>
     (e.feed \in DOMAIN s.feeds /\ e.who = s.feeds[e.feed].creator)
+
+(***************************************************************************)
+(* History-based twins (audit round).  The clauses above read the feed's   *)
+(* context id, creator and latest-history from the feed RECORD and the     *)
+(* answers of a batch from the service module's response records: a defect *)
+(* that writes one of them wrongly moves both sides of the comparison.  The *)
+(* twins below judge every feed created in the trace by what happened:     *)
+(* g is the ghost BEFORE the step (s, e, t).                               *)
+(***************************************************************************)
+(* the feeds the history knows: created in this trace, with the one context that appeared *)
+HFeeds(g) == {f \in DOMAIN g.fctx : g.fctx[f] # "" /\ f \in DOMAIN g.lh}
+
+MetThresholdH(g, s, e, f) ==
+  LET n == Cardinality(DOMAIN AnsWith(g, e, f)) IN n > 0 /\ n >= s.ctx[g.fctx[f]].bthr
+
+(* feeds whose batch completed in this step with enough answers accepted from the harness *)
+AppendingH(g, s, e, t) ==
+  {f \in HFeeds(g) : CompletedH(g, s, t, f) /\ MetThresholdH(g, s, e, f)}
+
+(* latest-history after the step, from the accepted events *)
+LhH(g, e, f) ==
+  IF e.name = "EditFeed" /\ e.ok /\ e.lh > 0 /\ e.feed = f THEN e.lh ELSE g.lh[f]
+
+C17_AppendH(g, s, e, t) ==
+  \A f \in HFeeds(g) :
+    /\ f \in DOMAIN t.values /\ f \in DOMAIN s.values
+    /\ IF f \in AppendingH(g, s, e, t)
+       THEN /\ Len(t.values[f]) >= 1
+            /\ t.values[f][1].t = t.now
+            /\ Len(t.values[f]) <= Len(s.values[f]) + 1
+            /\ Tail(t.values[f]) = SubSeq(s.values[f], 1, Len(t.values[f]) - 1)
+       ELSE /\ Len(t.values[f]) <= Len(s.values[f])
+            /\ t.values[f] = SubSeq(s.values[f], 1, Len(t.values[f]))
+
+(* the aggregate function is the one named by the accepted CreateFeed: it cannot be edited *)
+C17_AggregateH(g, s, e, t) ==
+  \A f \in AppendingH(g, s, e, t) :
+    (f \in DOMAIN t.values /\ Len(t.values[f]) >= 1 /\ f \in DOMAIN s.feeds) =>
+      LET xs == NumOnly(AnsWith(g, e, f))
+          v == t.values[f][1].v
+      IN CASE s.feeds[f].agg = "max" -> MaxW(SetMax(ValsOf(xs)), v, 0)
+           [] s.feeds[f].agg = "min" -> MinW(SetMin(ValsOf(xs)), v, 0)
+           [] OTHER -> AvgOK(v, xs)
+
+C17_HistoryH(g, s, e, t) ==
+  \A f \in HFeeds(g) :
+    (f \in DOMAIN t.values /\ f \in DOMAIN s.values) =>
+      LET vs == t.values[f]
+          lh == LhH(g, e, f)
+          new == IF f \in AppendingH(g, s, e, t) THEN 1 ELSE 0
+      IN /\ Len(vs) <= lh
+         /\ Len(vs) - new = Min(Len(s.values[f]), lh - new)
+
+(* the state the feed shows (state index) is the state of the context that was
+   created with it; an accepted start / pause shows at once *)
+C17_StateMirrorH(g, e, t) ==
+  /\ \A f \in DOMAIN g.fctx : g.fctx[f] # "" =>
+        LET c == g.fctx[f] IN
+        /\ f \in DOMAIN t.idx /\ c \in DOMAIN t.ctx
+        /\ t.idx[f].run <=> (t.ctx[c].state = "running")
+        /\ t.idx[f].pause <=> (t.ctx[c].state = "paused")
+  /\ (e.name = "StartFeed" /\ e.ok /\ e.feed \in DOMAIN t.idx) => (t.idx[e.feed].run /\ ~t.idx[e.feed].pause)
+  /\ (e.name = "PauseFeed" /\ e.ok /\ e.feed \in DOMAIN t.idx) => (t.idx[e.feed].pause /\ ~t.idx[e.feed].run)
+
+(* only the signer of the accepted CreateFeed starts, pauses or edits *)
+C17_AuthorityH(g, e) ==
+  (e.name \in {"StartFeed", "PauseFeed", "EditFeed"} /\ e.ok /\ e.feed \in DOMAIN g.creator) =>
+    e.who = g.creator[e.feed]
 
 -----------------------------------------------------------------------------
 (* Diagnostic clauses (beyond C17's text; reported, never a verdict) *)
@@ -714,7 +833,13 @@ RespondPay ==
             Step([NoEv EXCEPT !.name = "Respond", !.who = who, !.feed = f, !.kind = "val", !.x = x, !.pay = pay])
        \/ \E pay \in ZeroPays \cup {"true"} :
             Step([NoEv EXCEPT !.name = "Respond", !.who = who, !.feed = f, !.kind = "val", !.x = X1, !.pay = pay])
-NextP == Next \/ RespondPay
+RespondNaN ==
+  /\ st.inb
+  /\ \E who \in Provs, f \in DOMAIN st.feeds :
+       /\ st.feeds[f].agg \in {"max", "min"} /\ st.feeds[f].ctx \in DOMAIN st.ctx
+       /\ \E q \in DOMAIN st.ctx[st.feeds[f].ctx].reqs : q # who /\ st.ctx[st.feeds[f].ctx].reqs[q].kind = "val"
+       /\ Step([NoEv EXCEPT !.name = "Respond", !.who = who, !.feed = f, !.kind = "val", !.x = X1, !.pay = "nan"])
+NextP == Next \/ RespondPay \/ RespondNaN
 
 OddFeed ==
   /\ st.inb
@@ -797,6 +922,11 @@ Act_C17_Append == [][C17_Append(st, ev', st')]_vars
 Act_C17_Aggregate == [][C17_Aggregate(st, ev', st')]_vars
 Act_C17_History == [][C17_History(st, ev', st')]_vars
 Act_C17_Authority == [][C17_Authority(st, ev')]_vars
+Act_C17_AppendH == [][C17_AppendH(gh, st, ev', st')]_vars
+Act_C17_AggregateH == [][C17_AggregateH(gh, st, ev', st')]_vars
+Act_C17_HistoryH == [][C17_HistoryH(gh, st, ev', st')]_vars
+Act_C17_StateMirrorH == [][C17_StateMirrorH(gh', ev', st')]_vars
+Act_C17_AuthorityH == [][C17_AuthorityH(gh, ev')]_vars
 Act_Rejected_NoEffect == [][Rejected_NoEffect(st, ev', st')]_vars
 Act_X17_PriceService == [][X17_PriceService(st, ev')]_vars
 Act_X17_RateGate == [][X17_RateGate(st, ev', st')]_vars
